@@ -214,6 +214,19 @@ def auth_case(mech, shape, tls, state_kind, verdict):
     if state_kind == 'in_trans':
         peer.send(b'MAIL FROM:<s@x.example>\r\n')
         peer.reply()
+    if state_kind == 'after_auth_anon':
+        # authenticated with an empty user name (a guest account the application accepts): authenticated all the same
+        peer.send(b'AUTH LOGIN\r\n')
+        r = peer.reply()
+        if r and r[0] == 334:
+            peer.send(b'\r\n')
+            r = peer.reply()
+            if r and r[0] == 334:
+                peer.send(b64(PASS.encode('utf-8')) + b'\r\n')
+                r = peer.reply()
+        if not (r and r[0] == 235):
+            state_kind = 'ok'          # the application did not let the guest in: nothing to gate
+        del log[:]
     if state_kind in ('after_auth', 'after_auth_ehlo'):
         peer.send(b'AUTH CRAM-MD5\r\n')
         r = peer.reply()
@@ -388,7 +401,7 @@ def main():
             for shape in ('initial', 'challenge', 'cancel', 'badb64', 'empty', 'nonutf8'):
                 jobs.append(('auth', mech, shape, tls, 'ok', 0))
             jobs.append(('auth', mech, 'initial', tls, 'ok', 535))
-            for st in ('pre_ehlo', 'in_trans', 'after_auth', 'after_auth_ehlo'):
+            for st in ('pre_ehlo', 'in_trans', 'after_auth', 'after_auth_ehlo', 'after_auth_anon'):
                 jobs.append(('auth', mech, 'initial', tls, st, 0))
     for tls in (False, True):
         jobs.append(('auth', b'PLAIN', 'bare', tls, 'ok', 0))
